@@ -150,6 +150,21 @@ func casesC09(g *Gen) []*Case {
 	for _, s := range named {
 		add("named_faults", s, sc.data)
 	}
+	// data with embedded structs (exported and unexported types, by value, nil and non-nil pointers), aliasing maps
+	for _, src := range []string{"{{ a }}|{{ b }}|{{ c }}|{{ d }}", "@dump(a, b, c, d)", "{{ c.EmbBase.ID }}", "{{ c.name.len() }}{{ d.embBase.id }}", "@each(v in [a, b, c, d]){{ v.name }}@end", "{{ e.profile.name }}{{ f.d_all[0] }}"} {
+		c := evalCase("embedded_structs", src, gvMap("a", gvNamed(7), "b", gvNamed(8), "c", gvNamed(9), "d", gvNamed(10), "e", gvNamed(5), "f", gvNamed(6)))
+		c.Oracle = oracleNoCrash
+		cs = append(cs, c)
+	}
+	// the line of a fault that follows string literals holding line breaks (first, last, only character)
+	for _, pre := range []string{"{{ \"\nabc\" }}", "{{ '\n' }}", "{{ \"a\n\" }}", "{{ \"\n\n\" }}{{ '\nx\n' }}", "{{ [\"\n\", \"b\"] }}", "{{ \"\r\nq\" }}", "@if(\"\n\" == \"\")@end", "{{ x = \"\nz\" }}"} {
+		for _, f := range []struct{ src, part string }{{"{{ 5 % 0 }}", "division"}, {"{{ i7.x }}", ""}, {"@each(q in 7)x@end", ""}, {"{{ \"a\".repeat(\"b\") }}", ""}} {
+			line := strings.Count(pre, "\n") + 2
+			c := evalCase("line_after_multiline_strings", pre+"\n"+f.src, sc.data)
+			c.Oracle = func(c *Case, impl string) string { return wantErrLine(line, f.part)(impl) }
+			cs = append(cs, c)
+		}
+	}
 	// values nested very deeply, as literals and from the data, printed and dumped
 	for _, depth := range []int{8, 15, 16, 17, 31, 32, 33, 34, 63, 64, 65, 66, 100, 129} {
 		for _, obj := range []bool{false, true} {
@@ -366,7 +381,9 @@ func oracleC10(content, pre, post string) func(*Case, string) string {
 
 func casesC10(g *Gen) []*Case {
 	var cs []*Case
-	alpha := []string{"<", ">", "&", ";", "#", "3", "4", "9", "x", `"`, "'", "\\", "&amp;", "&lt;", "&#34;", "&#39;", "é", "中", " ", "amp"}
+	alpha := []string{"<", ">", "&", ";", "#", "3", "4", "9", "x", `"`, "'", "\\", "&amp;", "&lt;", "&#34;", "&#39;", "é", "中", " ", "amp",
+		// what is an escape in text is none in a string literal
+		"\\{{", "\\@end", "\\@if(", "{{", "@end", "\\}}", "\\n"}
 	seen := map[string]bool{}
 	addLit := func(content string) {
 		if seen[content] || strings.HasSuffix(content, "\\") {
@@ -472,6 +489,20 @@ func casesC10(g *Gen) []*Case {
 	}
 	escC10 := func(x string) string {
 		return strings.NewReplacer("&", "&amp;", "<", "&lt;", ">", "&gt;").Replace(x)
+	}
+	// literals that stand at the same line and column of different files of one render
+	{
+		t := newTree()
+		t.files["tpl/layouts/l.tw"] = `{{ "<L>" }}|{{ "&l" }}[@reserve("a")]`
+		t.files["tpl/card.tw"] = `{{ "<i>" }}|{{ "&c" }}(@slot)`
+		t.files["tpl/page.tw"] = `{{ "<b>" }}|{{ "&p" }}@component("card")@slot{{ "<s>" }}@end@end`
+		t.files["tpl/page2.tw"] = `@use("~l")@insert("a"){{ "<b>" }}@component("card")@end`
+		t.files["tpl/page3.tw"] = `{{ "<b>".raw() }}|{{ "x" }}@component("card")|@component("card")`
+		c := histCase("same_position_other_file", t, []string{opNew("tpl", ".tw", "", false), opStr("page", nil), opStr("page2", nil), opStr("page3", nil)},
+			"NewTemplate; a page, its component and its layout hold different literals at the same line and column")
+		c.Oracle = expectResults(map[int]func(string) string{0: wantNewOK, 1: wantOK("&lt;b&gt;|&amp;p&lt;i&gt;|&amp;c(&lt;s&gt;)"),
+			2: wantOK("&lt;L&gt;|&amp;l[&lt;b&gt;&lt;i&gt;|&amp;c()]"), 3: wantOK("<b>|x&lt;i&gt;|&amp;c()|&lt;i&gt;|&amp;c()")})
+		cs = append(cs, c)
 	}
 	// two different literals of one length whose usual 32-bit checksums are equal, in one render
 	for _, col := range collidingPairs("c10", numShape("<a href='/p?id=", "&x=1'>")) {
@@ -738,6 +769,15 @@ func casesC11(g *Gen) []*Case {
 			fmt.Sprintf("%d|%d|%d|%d|%s", int64(f), int64(math.Ceil(f)), int64(math.Floor(f)), int64(math.Round(f)), strconv.FormatFloat(f, 'f', -1, 64)))
 		mk("float_abs", "{{ f.abs() == f ? 1 : f.abs() == 0.0 - f ? 1 : 0 }}|{{ f.abs() >= 0.0 }}", d, "1|1")
 	}
+	// str() of floats of every magnitude: the shortest decimal text that reads back as the same double, never an exponent
+	for _, f := range []float64{9223372036854775807, 9223372036854775808, 18446744073709551616, 9007199254740992, 9007199254740993, 4611686018427387904, -9223372036854775808,
+		1e15, 1e16, 1e17, 1e20, 1e21, 1e22, 1.5e300, 5e-324, 2.2250738585072014e-308, 1e-7, 1e-21, 1e-22, 123456789012345680000, math.MaxFloat64, math.Copysign(0, -1), 0.1 + 0.2,
+		math.Inf(1), math.Inf(-1), math.NaN(), 33.0, -7.0, 1 << 62} {
+		d := gvMap("f", gvFloat(f))
+		mk("float_str_magnitudes", "{{ f.str() }}|{{ f.str().len() }}|{{ (f * 1.0).str() }}", d,
+			fmt.Sprintf("%s|%d|%s", strconv.FormatFloat(f, 'f', -1, 64), len(strconv.FormatFloat(f, 'f', -1, 64)), strconv.FormatFloat(f, 'f', -1, 64)))
+		cs = append(cs, evalCase("float_str_magnitudes", "{{ f }}|{{ [f] }}|{{ {k: f} }}|@dump(f)", d))
+	}
 	for _, i := range []int64{0, 3, -8, 1 << 53} {
 		mk("int_float", "{{ n.float() == n.float() }}|{{ n.float().int() }}", gvMap("n", gvInt(i)), fmt.Sprintf("1|%d", i))
 	}
@@ -755,7 +795,7 @@ func casesC11(g *Gen) []*Case {
 		cs = append(cs, c)
 	}
 	// valid UTF-8 in, valid UTF-8 out: every string built-in on multi-byte receivers
-	u8 := []string{"héllo", "日本語", "éa", "aé", "ñ", "🙂x"}
+	u8 := []string{"héllo", "日本語", "éa", "aé", "ñ", "🙂x", "a\uFFFDb", "\uFFFD", "\uFFFD\uFFFD x", "x\uFFFD", "\uFFFE", "\U0010FFFF", "\u07FF\u0800", "\uD7FF\uE000"}
 	for _, s := range u8 {
 		for _, call := range []string{"truncate(1)", "truncate(2, \"…\")", "capitalize()", "reverse()", "at(0)", "at(1)", "first()", "last()", "upper()", "lower()", "trim(\"é\")", "split(\"\").join(\"|\")", "repeat(2)", "raw()", "trimLeft(\"h日\")"} {
 			c := evalCase("utf8_preserved", "{{ s."+call+" }}", gvMap("s", gvStr(s)))
@@ -921,6 +961,50 @@ func casesC12(g *Gen) []*Case {
 	{
 		c := evalCase("internal_pointers", "{{ r.head }}-{{ r.active }}-{{ r.name }}|{{ r.next.head }}-{{ r.next.active }}-{{ r.next.next ? 1 : 0 }}", gvMap("r", gvNamed(4)))
 		c.Oracle = expectOut("3-3-n|4-3-0")
+		cs = append(cs, c)
+	}
+	// one access path over values of different shapes: a struct field reached by its lower-cased name, then a map
+	// that holds both spellings as keys (and the other way round): every value answers for itself
+	{
+		st := &GV{K: "T", Keys: []string{"Name", "Age"}, Export: []bool{true, true}, Elems: []*GV{gvStr("S"), gvInt(3)}}
+		both := gvMap("name", gvStr("lower"), "Name", gvStr("UPPER"), "age", gvInt(1), "Age", gvInt(2))
+		only := gvMap("Name", gvStr("OnlyUpper"), "Age", gvInt(9))
+		for src, want := range map[string]string{
+			"@each(u in items){{ u.name }}{{ u.age }},@end":                                         "S3,lower1,OnlyUpper9,S3,lower1,",
+			"@each(u in rev){{ u.name }}{{ u[\"name\"] }}{{ u.Name }},@end":                          "lowerlowerUPPER,SSS,lowerlowerUPPER,",
+			"{{ items[0].name }}{{ items[1].name }}{{ items[0].name }}{{ items[1].Name }}":            "SlowerSUPPER",
+			"@for(i = 0; i < 5; i++){{ items[i].name }}@end|@each(u in rev)@if(u.name == \"S\")s@else m@end@end": "SlowerOnlyUpperSlower| ms m",
+		} {
+			c := evalCase("one_path_many_shapes", src, gvMap("items", gvList(st, both, only, st, both), "rev", gvList(both, st, both)))
+			c.Oracle = expectOut(want)
+			cs = append(cs, c)
+		}
+		t := newTree()
+		t.files["tpl/card.tw"] = "[{{ u.name }}|{{ u.age }}]"
+		t.files["tpl/page.tw"] = `@each(u in items)@component("card", {u: u})@end@component("card", {u: items[1]})@component("card", {u: items[0]})`
+		c := histCase("one_path_many_shapes", t, []string{opNew("tpl", ".tw", "", false), opStr("page", gvMap("items", gvList(st, both, only))), opStr("page", gvMap("items", gvList(both, st, both)))},
+			"NewTemplate; a component file reads u.name of a struct, of a map with both spellings, of a map with the upper-case key only")
+		c.Oracle = expectResults(map[int]func(string) string{0: wantNewOK, 1: wantOK("[S|3][lower|1][OnlyUpper|9][lower|1][S|3]"), 2: wantOK("[lower|1][S|3][lower|1][S|3][lower|1]")})
+		cs = append(cs, c)
+	}
+	// embedded structs: a field named after the type when the type is exported, not reachable otherwise; nil or not
+	for src, want := range map[string]string{
+		"{{ a.EmbBase.ID }}{{ a.embBase.tag }}{{ a.name }}|{{ a }}":        "1tn|{EmbBase: {ID: 1, Tag: t}, Name: n}",
+		"{{ b.name }}|{{ b }}":                                             "w|{Name: w}",
+		"{{ c.name }}|{{ c.EmbBase ? 1 : 0 }}|{{ c }}":                      "w2|0|{EmbBase: , Name: w2}",
+		"{{ d.name }}{{ d.EmbBase.ID }}{{ d.embBase.Tag }}|{{ d }}":         "w34u|{EmbBase: {ID: 4, Tag: u}, Name: w3}",
+		"@each(v in [a, b, c, d]){{ v.name }},@end@dump(c)":                "",
+	} {
+		c := evalCase("embedded_structs", src, gvMap("a", gvNamed(7), "b", gvNamed(8), "c", gvNamed(9), "d", gvNamed(10)))
+		if want != "" {
+			c.Oracle = expectOut(want)
+		}
+		cs = append(cs, c)
+	}
+	for src, part := range map[string]string{"{{ b.embInner }}": "embInner", "{{ b.Pub }}": "Pub", "{{ a.ID }}": "ID", "{{ d.embInner.Pub }}": "embInner"} {
+		part := part
+		c := evalCase("embedded_structs", src, gvMap("a", gvNamed(7), "b", gvNamed(8), "c", gvNamed(9), "d", gvNamed(10)))
+		c.Oracle = func(c *Case, impl string) string { return wantErr(part)(impl) }
 		cs = append(cs, c)
 	}
 	// maps whose keys are not strings have no counterpart in a template: the call fails (and says so every time)
